@@ -60,6 +60,9 @@ var (
 	ErrRtmpUnexpectedMsg = errors.New("lal.rtmp: unexpected msg")
 )
 
+// ErrRelayPullStopped 回源拉流的连接建立过程中，回源已经被关闭了
+var ErrRelayPullStopped = errors.New("lal.logic: relay pull stopped")
+
 // ErrStreamNameInvalid 输入流的名称包含"."、".."路径项或者反斜杠
 var ErrStreamNameInvalid = errors.New("lal: stream name invalid")
 
